@@ -302,7 +302,7 @@ pub mod fs {
             }
         })
         .unwrap_or(0);
-        dsim::sleep(std::time::Duration::from_micros(base_us + stall_ms * 1000));
+        dsim::disk_wait(std::time::Duration::from_micros(base_us + stall_ms * 1000));
     }
 
     impl Read for File {
